@@ -112,6 +112,15 @@ func runC16(c *ctx) {
 			if r.chance(1, 3) {
 				s.shift(s.ticketOf(b), pick(r, []time.Duration{time.Minute, 6 * time.Minute, 11 * time.Minute}))
 			}
+			if k%2 == 1 {
+				// an entry WITHOUT expiry (restored from a dump, PERSISTed by an operator, written by an older version): still only ever READ by a proxy
+				func() {
+					defer func() { recover() }()
+					if key := s.ticketOf(b).Key(); s.mr.Exists(key) {
+						s.mr.SetTTL(key, 0)
+					}
+				}()
+			}
 			nc := s.idp.callCount()
 			hdr := http.Header{"Sec-Fetch-Mode": {"navigate"}, "Sec-Fetch-Dest": {"document"}}
 			resp := b.do(prx, "GET", "http://app.example.com"+op, hdr)
